@@ -16,15 +16,21 @@ import (
 type fileSpec struct {
 	level  int
 	seq    int
+	ts     int
 	keys   [2]bool   // which universe keys it contains
 	tomb   [2]bool   // tombstone?
 	val    [2][]byte // value otherwise
 }
 
-// view: newest entry for key ki over the files; recency: lower level newer, within a level higher seq newer.
+// view: newest entry for key ki over the files; recency: lower level newer, within a level the later creation
+// timestamp (then the higher file number) newer - file numbers alone are not reliable, they restarted at 1 on
+// every open in databases written by earlier versions.
 func newer(a, b fileSpec) bool {
 	if a.level != b.level {
 		return a.level < b.level
+	}
+	if a.ts != b.ts {
+		return a.ts > b.ts
 	}
 	return a.seq > b.seq
 }
@@ -37,10 +43,16 @@ func VerifC12_CompactPreservesView() {
 	K := [2][]byte{vsym.Bytes("K0", 1), vsym.Bytes("K1", 1)}
 	vsym.Assume(K[0][0] < K[1][0])
 	nf := vsym.IntRange("files", 2, 3)
+	// file numbers follow creation order (the engine continues its numbering across restarts, so number order and
+	// timestamp order agree for every set of files it can have written)
+	restarted := false
 	var files []fileSpec
 	for f := 0; f < nf; f++ {
-		fs := fileSpec{level: vsym.IntRange("level", 0, 1), seq: f + 1}
-		w, err := sstable.NewWriter(filepath.Join(dir, fmt.Sprintf("%d_%06d_%020d.sst", fs.level, fs.seq, 1000+f)))
+		fs := fileSpec{level: vsym.IntRange("level", 0, 1), seq: f + 1, ts: 1000 + f}
+		if restarted {
+			fs.ts = 2000 - f
+		}
+		w, err := sstable.NewWriter(filepath.Join(dir, fmt.Sprintf("%d_%06d_%020d.sst", fs.level, fs.seq, fs.ts)))
 		vsym.Assert(err == nil, "NewWriter failed")
 		any := false
 		for ki := 0; ki < 2; ki++ {
@@ -95,6 +107,7 @@ func VerifC12_CompactPreservesView() {
 	vsym.Assert(err == nil, "ReadDir failed")
 	type found struct {
 		level, seq int
+		ts         int64
 		tomb       bool
 		val        []byte
 	}
@@ -116,8 +129,8 @@ func VerifC12_CompactPreservesView() {
 			prev = append([]byte(nil), it.Key()...)
 			for ki := 0; ki < 2; ki++ {
 				if vsym.EqBytes(it.Key(), K[ki]) {
-					f := &found{level: level, seq: seq, tomb: it.IsTombstone(), val: it.Value()}
-					if best[ki] == nil || f.level < best[ki].level || (f.level == best[ki].level && f.seq > best[ki].seq) {
+					f := &found{level: level, seq: seq, ts: ts, tomb: it.IsTombstone(), val: it.Value()}
+					if best[ki] == nil || f.level < best[ki].level || (f.level == best[ki].level && (f.ts > best[ki].ts || (f.ts == best[ki].ts && f.seq > best[ki].seq))) {
 						best[ki] = f
 					}
 				}
